@@ -72,6 +72,11 @@ def _setup(env, scenario):
     raise ValueError(scenario)
 
 
+def _state(enf, names):
+    """Signature of the (possibly half-built) rule store."""
+    return '; '.join('%s=%s' % (n, _governing(enf, n)) for n in names)
+
+
 def _governing(enf, name):
     """What the (possibly half-built) rule store holds for *name*."""
     try:
@@ -120,7 +125,7 @@ def run_schedule(ctx, scenario, family, probe, lo, hi):
         enf.load_rules()
         old = env.enforcer(defaults=defaults)
         d_old = bool(old.enforce(probe, {}, creds))
-        g_old = _governing(old, probe)
+        g_old = _state(old, probes)
         edit()
         if family == 'writer-paused':
             mon = sched.Monitored(lambda: enf.load_rules(), pause_at=i)
@@ -132,9 +137,9 @@ def run_schedule(ctx, scenario, family, probe, lo, hi):
         suspended = mon.start_until_paused()
         gov = None
         if suspended:
-            finished, h = sched.run_other(other, blocked_after=3.0)
+            finished, h = sched.run_other(other, blocked_after=0.4)
             if finished and family == 'writer-paused':
-                gov = _governing(enf, probe)
+                gov = _state(enf, probes)
             mon.finish()
             if not finished:
                 h['done'].wait(30)
@@ -146,12 +151,12 @@ def run_schedule(ctx, scenario, family, probe, lo, hi):
                 raise e             # engine control flow from the thread
         new = env.enforcer(defaults=defaults)
         d_new = bool(new.enforce(probe, {}, creds))
-        g_new = _governing(new, probe)
+        g_new = _state(new, probes)
         if family == 'writer-paused':
             d_i, exc_dec, exc_load = h['result'], h['exc'], mon.exc
         else:
             d_i, exc_dec, exc_load = mon.result, mon.exc, h['exc']
-            gov = _governing(enf, probe)
+            gov = _state(enf, probes)
         where = mon.where
         row = {'scenario': scenario, 'family': family, 'probe': probe,
                'suspended_at_line_event': i, 'suspended_in': where}
@@ -170,11 +175,11 @@ def run_schedule(ctx, scenario, family, probe, lo, hi):
         ok = (d_i == d_old) or (d_i == d_new)
         ctx.observe('ok', ok)
         ctx.require(ok, 'schedule:mixed-policy',
-                    key='%s/%s/%s %s by %s (old: %s, new: %s)' % (
-                        scenario, family, probe,
-                        'allowed' if d_i else 'denied', gov, g_old, g_new),
+                    key='%s/%s/%s decided on the store {%s}' % (
+                        scenario, family, probe, gov),
                     detail=dict(row, decision=d_i, under_old=d_old,
-                                under_new=d_new, store_held=gov))
+                                under_new=d_new, store_held=gov,
+                                old_store=g_old, new_store=g_new))
     finally:
         env.close()
 
@@ -220,7 +225,7 @@ def evidence(tier):
         'symbols': ['i: Int (pre-emption point)', 'creds.<role>: Bool'],
         'stubs': ['sys.monitoring LINE events restricted to oslo_policy '
                   'drive a two-thread scheduler (pysym/sched.py); a thread '
-                  'that blocks for 3 s is treated as waiting on a lock and '
+                  'that blocks for 0.4 s is treated as waiting on a lock and '
                   'the suspended thread is resumed first'],
         'outside_claim': ['more than two context switches', 'pre-emption '
                           'inside C code, PyYAML or oslo.config', 'more '
